@@ -8,6 +8,8 @@ Section ConcAbort.
   Variable H : bytes -> bytes.
   Variable cmp : bytes -> bytes -> comparison.
   Variable nops : N.
+  Variable bad : bytes -> bool.
+  Variable ckbad : bool.
 
   Definition same_shared (g g' : cstate) : Prop :=
     g_idx g' = g_idx g /\ g_bykey g' = g_bykey g /\ g_byhash g' = g_byhash g /\ g_cas g' = g_cas g
@@ -16,7 +18,7 @@ Section ConcAbort.
   Lemma abort_step_changes_nothing_shared :
     forall g t ts k c rest,
       tget (g_thr g) t = Some ts -> t_pc ts = Idle -> t_calls ts = KAbort k c :: rest ->
-      exists g', cstep H cmp nops g t = Some g'
+      exists g', cstep H cmp nops bad ckbad g t = Some g'
         /\ same_shared g g'
         /\ tget (g_thr g') t = Some (mkT rest Idle (t_res ts ++ [CUnit]))
         /\ (forall u, u <> t -> tget (g_thr g') u = tget (g_thr g) u).
@@ -34,7 +36,7 @@ Section ConcAbort.
   Lemma abort_always_enabled :
     forall g t ts k c rest,
       tget (g_thr g) t = Some ts -> t_pc ts = Idle -> t_calls ts = KAbort k c :: rest ->
-      enabled H cmp nops g t = true.
+      enabled H cmp nops bad ckbad g t = true.
   Proof.
     intros g t ts k c rest Ht Hpc Hc.
     destruct (abort_step_changes_nothing_shared g t ts k c rest Ht Hpc Hc) as (g' & E & _).
